@@ -10,9 +10,10 @@ import NV.Driver.Listen
 import NV.Driver.Upfault
 import NV.Driver.Discovery
 import NV.Driver.Config
+import NV.Driver.Cache
 namespace NV
 
-def steppers : List (List String → Option String) := [stepCore, stepCap, stepRaceSoak, stepListen, stepUpfault, Disc.stepDiscovery, Config.stepConfig]
+def steppers : List (List String → Option String) := [stepCore, stepCap, stepRaceSoak, stepListen, stepUpfault, Disc.stepDiscovery, Config.stepConfig, stepCache]
 
 def step (line : String) : String :=
   let toks := line.splitOn " "
